@@ -591,5 +591,6 @@ MUTANTS += [
     M("fitness-copy-copies-failing-tree-causes", _FT, "            failing_trees=self.failing_trees[:],\n            suggestion=copy.deepcopy(self.suggestion),\n", "            failing_trees=copy.deepcopy(self.failing_trees),\n            suggestion=copy.deepcopy(self.suggestion),\n", "R11-d"),
 ]
 TWINS = [
+    M("twin-trivial-result-by-constructor", _EV, "        if len(constraints) == 0:\n            return 1.0, [], NopSuggestion()\n", "        if len(constraints) == 0:\n            return 1.0, list(), NopSuggestion()\n", None),
     M("twin-key-name", _IMP, "tree_hash", "memo_key", None, count=4),
 ]
